@@ -1,6 +1,8 @@
 """C17 -- LLCP addressing: binding, discovery and delivery reach the right socket.
 
-Spec: spec/LlcpAddr.tla (exhaustive on an 8-slot table in three scenario families, shipped and repaired form).
+Spec: spec/LlcpAddr.tla (exhaustive on an 8-slot table in four scenario families, shipped and repaired form; the
+"life" family is the socket life cycle: sockets shut down by the peer's DISC, by FRMR or by a UI PDU before the
+application closes them) and spec/LlcpResolve.tla (concurrent resolvers, bind/c17_resolve.py).
 Binding: seeded histories of the public socket API (nfc.llcp.Socket: bind / listen / connect / accept / sendto /
 recvfrom / resolve / close, getsockname) on two real LogicalLinkController objects joined back to back at the real
 64-slot table - including histories that exhaust the 16 named and 32 dynamic addresses, reuse addresses after close,
@@ -778,6 +780,9 @@ def run(tier, seed):
     ck.cover(traces_validated_against_impl=acc, trace_events=nev, trace_states=st["states"],
              calls_by_result=dict(sorted(ops.items())),
              binding_selftest="getsockname off by one and dropped bind both rejected")
+    # 3. concurrent resolvers under the deterministic scheduler (spec/LlcpResolve.tla)
+    import bind.c17_resolve as RS
+    RS.stage(ck, tier, seed, tlc)
     t0 = traces[3]
     ck.sample(dict(trace=t0["id"], first_calls=[{k: e[k] for k in ("op", "c", "s", "n", "a", "res")} for e in t0["ev"][:8]]))
     ck.sample(dict(mc={k: dict(distinct=r.distinct, depth=r.depth) for k, r in res.items()}))
@@ -790,6 +795,12 @@ def run(tier, seed):
 
 def replay(rep, args):
     r = rep["replay"]
+    if r.get("kind") == "resolve":
+        import bind.c17_resolve as RS
+        rc = RS.replay(rep, tlc)
+        if rc:
+            print("VIOLATION property=%s replay=%s" % (PID, args.replay))
+        return rc
     tr = history(r["seed"], r["klass"])
     verdicts, st = tlc.validate_traces("Trace_LlcpAddr.tla", "Trace_LlcpAddr.cfg", PID + "_replay", [tr], shards=1)
     v = verdicts[tr["id"]]
